@@ -394,6 +394,19 @@ pub fn history(index: u64, mut rng: Rng, cfg: &HistCfg, focus: &str) -> Outcome 
             }
         }
     }
+    // a verifier and a client with DataCap: some sectors carry a verified piece (QA power = 10 x raw)
+    let vclient = w.others[1];
+    {
+        use fil_actor_verifreg::{AddVerifiedClientParams, Method as VrM, VerifierParams};
+        use fvm_shared::bigint::BigInt;
+        let (_, _, ok) = crate::verif::via_root(&w.v, VrM::AddVerifier, &VerifierParams { address: w.others[0], allowance: BigInt::from(1u64 << 50) });
+        let (r, _) = call(&w.v, &w.others[0], &fil_actors_runtime::VERIFIED_REGISTRY_ACTOR_ADDR, &TokenAmount::zero(), VrM::AddVerifiedClient as u64, Some(&AddVerifiedClientParams { address: vclient, allowance: BigInt::from(1u64 << 49) }));
+        if !ok || !r.code.is_success() {
+            o.inconclusive.push("DataCap client could not be set up".into());
+        }
+    }
+    // sector -> (pieces, allocation ids) of pre-committed sectors with a verified piece
+    let mut vpending: BTreeMap<(u64, u64), Vec<fil_actor_miner::PieceActivationManifest>> = BTreeMap::new();
     let mut mon = Monitors::new(&w);
     mon.fault_budget = if cfg.enumerate_faults { 12 } else { 0 };
     let policy = w.v.policy.clone();
@@ -441,8 +454,34 @@ pub fn history(index: u64, mut rng: Rng, cfg: &HistCfg, focus: &str) -> Outcome 
                     1 => base + rng.range(-2, 3),
                     _ => rng.range(10, 600) * DAY,
                 };
-                let (r, i) = precommit(&w.v, &m, &caller, &nums, exp, None);
-                ("precommit", r, i)
+                let verified_piece = nums.len() == 1 && caller == m.worker && rng.chance(1, 2);
+                if verified_piece {
+                    // allocate DataCap for one piece filling the sector, pre-commit with its CommD
+                    use fil_actor_verifreg::AllocationRequest;
+                    use fvm_shared::piece::{PaddedPieceSize, PieceInfo};
+                    let size = PaddedPieceSize(m.seal_proof.sector_size().unwrap() as u64);
+                    let data = fil_actors_runtime::test_utils::make_piece_cid(format!("vp{index}-{step}").as_bytes());
+                    let req = AllocationRequest { provider: m.addr.id().unwrap(), data, size, term_min: policy.minimum_verified_allocation_term, term_max: policy.maximum_verified_allocation_term, expiration: epoch + rng.range(35, 59) * DAY };
+                    let (tr, _) = crate::verif::transfer_to_registry(&w.v, &vclient, &crate::verif::whole(size.0), vec![req], vec![]);
+                    if tr.code.is_success() {
+                        let resp: frc46_token::token::types::TransferReturn = ret(&tr).unwrap();
+                        let ar: fil_actor_verifreg::AllocationsResponse = resp.recipient_data.deserialize().unwrap();
+                        let pieces = vec![PieceInfo { cid: data, size }];
+                        let commd: BTreeMap<u64, cid::Cid> = [(nums[0], commd_of(m.seal_proof, &pieces))].into_iter().collect();
+                        let (r, i) = precommit(&w.v, &m, &caller, &nums, exp, Some(&commd));
+                        if r.code.is_success() {
+                            vpending.insert((m.addr.id().unwrap(), nums[0]), vec![fil_actor_miner::PieceActivationManifest { cid: data, size, verified_allocation_key: Some(fil_actor_miner::VerifiedAllocationKey { client: vclient.id().unwrap(), id: ar.new_allocations[0] }), notify: vec![] }]);
+                        }
+                        ("precommit_verified", r, i)
+                    } else {
+                        o.count("datacap_allocation_rejected");
+                        let (r, i) = precommit(&w.v, &m, &caller, &nums, exp, None);
+                        ("precommit", r, i)
+                    }
+                } else {
+                    let (r, i) = precommit(&w.v, &m, &caller, &nums, exp, None);
+                    ("precommit", r, i)
+                }
             }
             1 => {
                 if precommitted.is_empty() {
@@ -463,8 +502,20 @@ pub fn history(index: u64, mut rng: Rng, cfg: &HistCfg, focus: &str) -> Outcome 
                     }
                     pre = snap_miner(&w.v, &m.addr).unwrap();
                 }
-                let (r, i) = prove_commit(&w.v, &m, &caller, &nums, &bad, rng.chance(1, 4));
-                ("prove_commit", r, i)
+                let vkeys: Vec<u64> = nums.iter().filter(|n| vpending.contains_key(&(m.addr.id().unwrap(), **n))).cloned().collect();
+                if !vkeys.is_empty() {
+                    // sectors pre-committed with a verified piece are activated with their manifests
+                    // (unverified ones in the same message carry no pieces)
+                    let acts: Vec<(u64, Vec<fil_actor_miner::PieceActivationManifest>)> = nums.iter().map(|n| (*n, vpending.get(&(m.addr.id().unwrap(), *n)).cloned().unwrap_or_default())).collect();
+                    let (r, i) = prove_commit_pieces(&w.v, &m, &caller, acts, rng.chance(1, 4));
+                    if r.code.is_success() {
+                        o.add("verified_sectors_activated", vkeys.len() as u64);
+                    }
+                    ("prove_commit_verified", r, i)
+                } else {
+                    let (r, i) = prove_commit(&w.v, &m, &caller, &nums, &bad, rng.chance(1, 4));
+                    ("prove_commit", r, i)
+                }
             }
             2 => {
                 // PoSt: for the open deadline if it holds sectors, else travel to the next deadline that does
